@@ -1,6 +1,7 @@
 (* C18 - read_object returns what restore would, under any memory budget.  Property theorems only. *)
 From TS Require Import model.Base model.Chunk model.Batch model.Pipeline proofs.ChunkProofs proofs.BatchProofs proofs.PipelineProofs.
 From TS Require Import gen.SchedGen model.Sched proofs.SchedProofs proofs.SchedRead.
+From TS Require Import model.Dispatch gen.DispatchGen proofs.DispatchInst gen.ChunkGen proofs.ChunkGenProofs.
 
 (* A read tiled under ANY buffer limit >= 1 (= memory_budget_bytes) returns exactly the bytes of the entry:
    the concatenation of what the tile consumers copy into consecutive slices of the output equals
@@ -48,3 +49,28 @@ Example C18_example :
   tile [3; 4] true 4 10 5 = Some [(5, 17, [3]); (17, 29, [3]); (29, 41, [3]); (41, 53, [3])] /\
   tiled_read obj [3; 4] true 4 10 5 = Some (map Z.of_nat (seq 5 48)).
 Proof. vm_compute. split; reflexivity. Qed.
+
+(* ------------------------------------------------------------------ the same over the source as it is now *)
+(* tile_g (proofs/ChunkGenProofs.v) is the tiling with num_chunks, chunk_sz_bytes and both byte_range forms taken from
+   gen/ChunkGen.v, regenerated on every run from io_preparers/tensor.py prepare_read_tiled.  Entry with a byte range
+   (slab member) and without (own file). *)
+Theorem C18_generated_tiled_read_returns_entry_bytes : forall (obj : bytes) shape flat esize limit (base : option Z),
+  1 <= limit -> 0 < esize -> Forall (fun s => 0 <= s) shape -> (flat = false -> shape <> []) ->
+  0 <= match base with None => 0 | Some b => b end ->
+  option_map (fun ts => concat (cut obj ts)) (tile_g shape flat esize limit base)
+  = Some (let b := match base with None => 0 | Some b => b end in slice obj b (b + esize * prodZ shape)).
+Proof.
+  intros obj shape flat esize limit base Hl He Hs Hf Hb. rewrite tile_g_eq.
+  pose proof (tiled_read_exact obj shape flat esize limit _ Hl He Hs Hf Hb) as H.
+  unfold tiled_read in H. destruct (tile shape flat esize limit _); [|discriminate H].
+  cbn [option_map]. exact H.
+Qed.
+Print Assumptions C18_generated_tiled_read_returns_entry_bytes.
+
+(* read_object's memory budget is handed on as the buffer limit for exactly the entry classes that can be tiled
+   (TensorEntry, ChunkedTensorEntry); every other readable entry goes to its own preparer untiled.  g_read_kind is
+   regenerated from io_preparer.prepare_read and the class statements of manifest.py. *)
+Theorem C18_generated_limit_reaches_tiling_preparers : forall k : wkind,
+  g_read_kind (entry_class_of k) = Some (reader_of k, match k with WChunked | WTensor => true | _ => false end).
+Proof. exact read_routing. Qed.
+Print Assumptions C18_generated_limit_reaches_tiling_preparers.
